@@ -472,7 +472,7 @@ func TestC06(t *testing.T) {
 		}
 		return c
 	}
-	core.Rapid(r, "extlist", r.Pick(3000, 60000), gen, wrap)
+	core.Rapid(r, "extlist", r.Pick(3000, 200000), gen, wrap)
 }
 
 var _ = reflect.DeepEqual
